@@ -150,6 +150,7 @@ def run(facts, rep, tier):
     # ---- 7 NOMINAL / 8 CTXSCOPE ----------------------------------------------------------------------------
     nominal(F, rep)
     ctxscope(F, rep, chk)
+    nameeq(F, rep, chk)
 
     # ---- 6 ARGTYPES --------------------------------------------------------------------------------------
     cc = F.one_fn("check_call")
@@ -410,3 +411,56 @@ def derived_set(f, local):
         cur = pl["l"]
         out.add(cur)
     return out
+
+
+# ---------------------------------------------------------------------------------------------------------------
+SUBSTRING_OPS = ("starts_with", "ends_with", "contains", "find", "rfind", "strip_prefix", "strip_suffix",
+                 "matches", "rmatches", "match_indices", "trim_start_matches", "trim_end_matches")
+
+
+def nameeq(F, rep, chk):
+    """NAMEEQ — the checker relates two run-time strings (identifiers, variant names, type names) only by equality or
+    hash lookup, never by a prefix / suffix / substring test. A substring relation between two names is not a name
+    resolution criterion: `Eq` would cover `NotEq`, `Id` would cover `UserId`. Tests against a constant pattern
+    (`contains("::")`, `starts_with('_')`) are spelling conventions and are not counted."""
+    from engines import resolve_str
+    n = 0
+    for p in sorted(chk):
+        f = F.fns[p]
+        if "typechecker" not in p and "symbols" not in p:
+            continue
+        ords = {}
+        for bi, t in f.calls():
+            g = callee_generic(t) or ""
+            last = g.split("::")[-1].split("<")[0]
+            if last not in SUBSTRING_OPS or not ("str::" in g or "core::str" in g or "string::String" in g):
+                continue
+            n += 1
+            pat = t["args"][1] if len(t["args"]) > 1 else None
+            const_pat = False
+            if pat is not None:
+                if "c" in pat:
+                    const_pat = True
+                else:
+                    try:
+                        const_pat = resolve_str(f, pat) is not None
+                    except Exception:
+                        const_pat = False
+                    if not const_pat:
+                        pl = op_place(pat)
+                        ty = f.local_ty(pl["l"]) if pl is not None and not pl["p"] else ""
+                        const_pat = ty in ("char",) or ty.startswith("[char")   # a char pattern is a convention test
+            import panicinv
+            fn_s = panicinv.fn_short(p)
+            k = (fn_s, last)
+            ords[k] = ords.get(k, 0) + 1
+            inst = "%s|%s#%d" % (fn_s, last, ords[k])
+            rep.oblige("NAMEEQ", inst, const_pat, sample={"rule": "NAMEEQ", "fn": p, "op": last,
+                                                          "line": t.get("ln"), "constant_pattern": const_pat})
+            if not const_pat:
+                rep.add(Finding("NAMEEQ", "NAMEEQ|%s" % inst,
+                                "%s relates two run-time strings with `%s`: names (variants, symbols, types) must be "
+                                "compared exactly — a prefix/suffix/substring match lets one name stand for another "
+                                "(e.g. a match arm for `NotEq` would cover a missing `Eq`)" % (fn_s, last),
+                                file=f.file, line=t.get("ln"), fn=p))
+    rep.floor("NAMEEQ", "substring-style string tests in the checker", n, 2)
